@@ -1151,6 +1151,7 @@ var tlbExec = map[string]h.ExecFn{
 	"go.tlb.fuzz":      goTLBFuzz,
 	"go.tlb.one":       goTLBOne,
 	"go.abi.dec":       goABIDec,
+	"go.tlb.deep":      goTLBDeep,
 	"go.tlb.flags":     goTLBFlags,
 	"go.tlb.flagsreal": goTLBFlagsReal,
 	"go.tlb.covseeds":  goTLBCovSeeds,
